@@ -46,7 +46,8 @@ def marker(r, p_marker):
 
 def key(r, pool=KEYS, p_marker=0, p_odd=2):
     if r.chance(p_odd, 100):
-        return r.choice([{"i": "1"}, True, None, {"i": "0"}, False])
+        return r.choice([{"i": "1"}, True, None, {"i": "0"}, False, {"i": "9223372036854775808"}, {"i": "18446744073709551615"},
+                         {"i": "-9223372036854775808"}, {"i": "9223372036854775807"}, {"i": "42"}])
     return marker(r, p_marker) + r.choice(pool)
 
 
@@ -260,7 +261,7 @@ def clone_point_diamond(r):
         return out, "${%s}" % prev
     e1, r1 = route("a")
     e2, r2 = route("b")
-    where = r.choice(["list", "mapvals", "layers", "path_layers", "pieces", "nested_path", "layers3", "list_in_layers"])
+    where = r.choice(["list", "mapvals", "layers", "path_layers", "pieces", "nested_path", "layers3", "list_in_layers", "whole_nested", "whole_nested"])
     L1 = M(base + e1 + e2)
     if where == "list":
         return [M(L1["m"] + [["t", [r1, r2, r1]]])]
@@ -287,5 +288,13 @@ def clone_point_diamond(r):
     if where == "nested_path":
         return [M([["sel", "k"], ["sel2", "${sel}"], ["common", M([["k", "v"]])], ["t", "${common:${sel}}"], ["u", "${common:${sel2}}"],
                    ["w", ["${common:${sel}}", "${common:${sel}}"]]])]
+    if where == "whole_nested":
+        # a path that is itself one nested reference, whose selected value mentions the selector again
+        inner = r.choice(["${sel}", "x-${sel}", ["${sel}"], M([["again", "${sel}"]])])
+        layers = [M([["sel", "tgt"], ["sel2", "${sel}"], ["tgt", M([["label", inner], ["k", "v"]])],
+                     ["t", "${${sel}}"], ["u", ["${${sel}}", "${${sel2}}"]], ["w", "${${sel}:k}"], ["e", "pre-${${sel}:k}-${sel}"]])]
+        if r.chance(1, 2):
+            layers.append(M([["t", "${${sel}}"]]))
+        return layers
     # list_in_layers
     return [M(L1["m"] + [["t", [r1]]]), M([["t", [r2, r1]]])]
